@@ -36,6 +36,17 @@ def record(tw, rng, n_chains, stats):
             comp = rng.choice(comps)
         else:
             comp = gen.synthetic_component(rng, "S", mass=gen.logu(rng, 1.0, 1000.0))
+        if rng.random() < 0.2:
+            # a component DERIVED from another one with a corrected molar mass (attr.evolve, or a copy edited afterwards): conversions
+            # use the molar mass the component has now
+            import attr
+            import copy
+            newm = float(comp.molecular_weight) * rng.uniform(0.3, 3.0)
+            if rng.random() < 0.5:
+                comp = attr.evolve(comp, molecular_weight=newm)
+            else:
+                comp = copy.deepcopy(comp)
+                comp.molecular_weight = newm
         M = float(comp.molecular_weight)
         u = rng.random()
         if u < 0.08:
@@ -45,12 +56,21 @@ def record(tw, rng, n_chains, stats):
         else:
             v = gen.logu(rng, 1e-12, 1e6)
         k = rng.choice([2.0, 0.5, 3.7, 1e-3, 1e3, gen.logu(rng, 1e-3, 1e3)])
+        if v >= 1.0 and rng.random() < 0.15:
+            # a whole number as it comes out of an integer column or a counter: Python int or numpy integer scalar
+            import numpy
+            v = float(round(min(v, 2e9 / 4)))
+            k = rng.choice([2, 3])
+            vi = rng.choice([int, numpy.int64, numpy.int32])(v)
+            as_int = True
+        else:
+            as_int = False
         u0 = gen.tstr(rng, rng.choice(UNITS))
         if rng.random() < 0.08:
             # the Permeance itself is stated in a unit the library does not know (mis-spelt, another convention): converting it must raise
             u0 = unknown_unit(rng)
-        a = pv.Permeance(value=v, units=u0)
-        b = pv.Permeance(value=k * v, units=u0)
+        a = pv.Permeance(value=vi if as_int else v, units=u0)
+        b = pv.Permeance(value=(type(vi)(k) * vi) if as_int else k * v, units=u0)
         tr = tw.new()
         tr.append({"ev": "New", "M": M, "k": F(k), "v_in": F(v), "a": pstate(a), "b": pstate(b)})
         for _ in range(rng.randrange(2, 5)):
